@@ -61,7 +61,7 @@ class C19(Prop):
         if rng.random() < 0.3:
             ck["key_prefix"] = E(b"p:")
         first = sorted(rng.sample(range(MAXN), rng.randint(1, 6)))
-        version = 1
+        version = rng.choice([1, 1, 7, 8, 9, 98, 99, 999])      # real endpoints bump it on every change
         err_first = rng.random() < 0.06
         nodes[0]["opts"]["cluster"] = "error" if err_first else self.cluster(version, first)
         w = {"stack": "aws", "cfg_node": "%s:11211" % CFG_HOST, "nodes": nodes, "resolver": resolver,
